@@ -429,6 +429,10 @@ def Glyph.load (g0 : Glyph R) (c : Content R) : Except Err (Glyph R) := do
 
 /-! ## `Glyph.copyDataFromGlyph`, `Layer.insertGlyph` -/
 
+/-- `dst` may hold data already (the old guidelines / anchors are released after the new ones were
+registered, the outline is APPENDED); the harness exercises fresh destinations only, which is what
+`Layer.insertGlyph` uses and what the property speaks about — the non-fresh branches are a reading of
+the code, not validated by runs. -/
 def copyData (dst src : Glyph R) : Except Err (Glyph R) := do
   -- self.width / height / unicodes / note = …
   let d := { dst with width := src.width, height := src.height, unicodes := src.unicodes, note := src.note }
